@@ -51,7 +51,12 @@ impl CopyHandle {
         // The destination may be the source itself under another name
         // (./file, a symlink or a hard link to it); creating it would
         // truncate the source.
-        if to.try_exists()? && is_same_file(from, to)? {
+        let existed = match to.symlink_metadata() {
+            Ok(_) => true,
+            Err(e) if e.kind() == ErrorKind::NotFound => false,
+            Err(e) => return Err(e.into()),
+        };
+        if existed && to.try_exists()? && is_same_file(from, to)? {
             return Err(XcpError::DestinationExists("Source and destination are the same file.", to.to_path_buf()).into());
         }
 
@@ -68,12 +73,24 @@ impl CopyHandle {
                 Err(e) => return Err(e.into()),
             }
         } else {
+            // An entry that was not there when it was checked against
+            // the source (or is not there any more) is created
+            // exclusively: if something appears at the path in the
+            // meantime (e.g. a link another worker makes for a source
+            // of the same name, possibly pointing at our own source)
+            // it is not opened through.
+            let mut fresh = !existed;
             if needs_backup(to, config)? {
                 let backup = get_backup_path(to)?;
                 info!("Backup: Rename {:?} to {:?}", to, backup);
                 fs::rename(to, backup)?;
+                fresh = true;
             }
-            File::create(to)?
+            if fresh {
+                OpenOptions::new().write(true).create_new(true).open(to)?
+            } else {
+                File::create(to)?
+            }
         };
         allocate_file(&outfd, metadata.len())?;
 
